@@ -165,6 +165,16 @@ UNITS['c13'] = {
     ],
 }
 
+UNITS['c13l'] = {
+    'template': 'contracts/c13l.vrs',
+    'mutants': [
+        ('cli_ignores_syntax_errors_when_a_tree_exists', 'if let Some(err) = errs.pop() {', 'if let (Some(err), true) = (errs.pop(), tree.is_none()) {', ['C13.cli.parse']),
+        ('lsp_eval_swallows_the_error', 'self.log_compiler_error(&loc, &err); Err(anyhow_msg("evaluation failed"))', 'Err(anyhow_msg("evaluation failed"))', ['C13.lsp.eval']),
+        ('lsp_logs_only_the_first_syntax_error', 'self.0.log_syntax_errors(&loc, &errs);', 'if errs.len() > 0 { self.0.log_syntax_errors(&loc, errs.split_at(1).0); }', ['C13.lsp.parse']),
+        ('playground_compile_error_becomes_success', 'let err = report_or_internal_error(report(self.0, span, err)); Err(anyhow_msg(err))', 'let _err = report_or_internal_error(report(self.0, span, err)); Ok(())', ['C13.playground.compile_module']),
+    ],
+}
+
 UNITS['c10'] = {
     'template': 'contracts/c10.vrs',
     'mutants': [
@@ -575,7 +585,7 @@ PROPS = {
         'not_decided': [],
     },
     'C13': {
-        'units': ['c14', 'c13'],
+        'units': ['c14', 'c13', 'c13l'],
         'level': 'other',
         'obligation_prefixes': ['C13.'],
         'technique': 'Verus contracts on the real CLI entry point (oal-cli.rs `main`, `run`, every write attempt recorded in a ghost log) and on the real playground entry point (oal-wasm `process`, `compile`)',
@@ -585,6 +595,9 @@ PROPS = {
                       '`main` exits with code 0 exactly when that one successful write happened, and with code 1 otherwise. '
                       'Front ends: the real `process` / `compile` of oal-wasm and the CLI `run` are proved to emit THE document of the evaluated program (every field of the OpenAPI object and of its components is fixed by the contract of into_openapi, so the document is unique: lemma), '
                       'hence for the same evaluated program and no base the CLI writes and the playground returns the same text; `compile` returns either that text or an empty document with an error. '
+                      'Phase by phase (unit c13l, real ProcLoader / WebLoader / WorkspaceLoader / Processor::eval / Workspace::{eval, log_*}): the command line and the playground fail to parse a module exactly when the lexer or parser reports an error, and return the same tree otherwise; '
+                      'all three front ends fail to compile a module / to evaluate exactly when the compiler / evaluator reports an error; the language server logs one error per reported syntax error and exactly one per failing compile / evaluation, and none on success: '
+                      'so it has logged at least one error for a phase exactly when the command line fails in that phase. '
                       'The one input of the evaluator besides the source text, the module URL hashed into generated component names by the real NodeRef::digest (unit c13), makes the two front ends DISAGREE on programs with generated names: known finding (DESIGN 12.26). '
                       'The playground (oal-wasm) and language-server clauses, "prints a diagnostic located in the sources", and what a failing `std::fs::write` leaves on disk are not decided: level other.',
         'level_note': 'ASSUMED (shims): Config::{new,main,target,base,is_quiet,verbosity}, Processor::{load,eval} (the compiler pipeline; its error paths all surface as Err before the write), DefaultFileSystem::open_file, serde_yaml::{from_reader,to_string}, '
@@ -593,7 +606,7 @@ PROPS = {
         'design_ref': 'DESIGN.md section 12.10',
         'explanation': 'First sentence of the statement, CLI part. Listed not applicable in the plan because it speaks of process exit status and file-system effects; a ghost log of write attempts threaded through run/main turns both into postconditions.',
         'assumptions': ['the only file-system write of the CLI is the DefaultFileSystem.write_file call in run (Processor::load/eval do not write)', 'stderrlog init succeeds', 'process exit status is the ExitCode returned by main'],
-        'not_decided': ['that the two loaders (ProcLoader over the file system, WebLoader over one string) yield the same module set for the same sources, and that both front ends FAIL on the same inputs (the error paths go through the generic Err of module::load)', 'language server publishes a diagnostic exactly when they fail', 'a diagnostic located in the sources is printed', 'state of the target after a failing write (std::fs::write may truncate)'],
+        'not_decided': ['the composition of the per-phase results through the generic error paths of module::load (its own errors InvalidModule / CycleDetected / join, converted with From and downcast again by Workspace::load: by reading, DESIGN 12.29) and Workspace::diagnostics (HashMap entry API: from logged errors to published diagnostics)', 'an unreadable source file (CLI fails, language server logs nothing): not an error kind the statement lists', 'a diagnostic located in the sources is printed', 'state of the target after a failing write (std::fs::write may truncate)'],
     },
     'C14': {
         'units': ['c14'],
